@@ -101,7 +101,7 @@ Definition ret_ok (o : cop) (d : db) (impl model : cret) : bool :=
   cret_eqb impl model ||
   match o, impl, model with
   | CLatest k _, ROpt (Some a), ROpt (Some b) =>
-      match get_dist_tag k s_latest d with
+      match get_dist_tag k tag_latest d with
       | Some _ => false
       | None => same_version a b && existsb (beq a) (get_versions k d)
       end
